@@ -215,6 +215,36 @@ PROPS.update({
     ),
 })
 
+PROPS.update({
+    "C12": dict(
+        level_text="Fault enumeration by runtime monitoring: the fault is the output capacity. Both wrappers are called on buffers between hardware guard pages (electric fence written for this purpose, covering zstd's C code as well) with capacities swept around every boundary that exists for the input (0..16, every 7th value up to needed+16 for small files, needed-1, needed, needed+1, 2*needed, the zstd bound), on container files, arbitrary bytes, empty input, truncated frames and noise. The thorough tier repeats a reduced sweep under AddressSanitizer and valgrind memcheck.",
+        design_ref="DESIGN.md §5 C12",
+        level_note="Expansions near the 128 MiB bound are not generated. For compress, 'undersized' is judged only through 'status 0 implies the bytes fit and are valid' (zstd gives no guarantee between actual frame size and bound).",
+        technique="runtime monitoring with guard pages/canaries (hand-written electric fence), capacity sweep; ASan + valgrind memcheck in the thorough tier",
+        level="fault_enumeration",
+        rule="files: edge cases, arbitrary bytes, empty, small assembled files (dense capacity sweep) and larger assembled/mutated "
+             "files (boundary sweep) x both wrappers x capacities x guard placement (page after / page before the buffer); plus "
+             "non-frame inputs to WrapperDecompressZip. evaluations = wrapper calls under the fence. non-trivial = file whose "
+             "whole sweep ran, distinct by content hash",
+        assumptions=COMMON_ASSUME + ["a SIGSEGV/SIGABRT of the worker is attributed to the case in flight by the supervisor and confirmed in isolation"],
+        min_evaluations=1000,
+    ),
+    "C14": dict(
+        level_text="Exploration of schedules by runtime monitoring: sequential baseline vs a repeated sequential run, vs 16 barrier-released threads in three phases with observed-overlap accounting, vs freshly spawned processes with different environment/cwd/thread count; the thorough tier adds ThreadSanitizer (std rebuilt and instrumented), AddressSanitizer, valgrind memcheck and Miri with 16 seeds (controlled schedules, UB and uninitialised-read detection).",
+        design_ref="DESIGN.md §5 C14",
+        level_note="Native schedules are whatever the kernel produced (the evidence shows how many call pairs overlapped); Miri adds controlled schedules on tiny inputs and cannot cross the zstd FFI; TSan sees only the Rust side of zstd calls.",
+        technique="runtime monitoring: sequential-vs-concurrent-vs-second-process differential oracle; TSan, ASan, valgrind, Miri in the thorough tier",
+        level="exploration",
+        rule="per case a seeded set of 12 inputs (stream + file each, incl. mutants) x 8 public entry points (both verify settings, "
+             "recompress, expand, recreate, zstd pair, the two C wrappers). evaluations = function calls compared with the baseline "
+             "(sequential repeat, 3 concurrent phases on 16 threads, 3 processes). non-trivial = (input, all-function result row), "
+             "distinct by digest",
+        assumptions=COMMON_ASSUME,
+        min_evaluations=500,
+        max_jobs=3,
+    ),
+})
+
 
 def c09_statistic(counters):
     """the statement's thresholds, one-sided, per family; returns (per_family, list of (sub, family, text))"""
@@ -244,6 +274,12 @@ def post_process(pid, counters, extras, run, replays):
         if counters.get("hook_crosscheck_failed", 0) > 0:
             out["harness_error"] = ("hook cross-check failed %d time(s): roundtrip_with_params with the estimator's own "
                                     "vector disagrees with the public analysis" % counters["hook_crosscheck_failed"])
+    if pid == "C14":
+        no = [k for k in counters if k.endswith(":no_overlap_observed")]
+        tot = sum(v for k, v in counters.items() if k.endswith(":overlapping_call_pairs"))
+        out["coverage"] = {"overlapping_call_pairs_total": tot}
+        if tot == 0 and counters.get("evaluations", 0) > 0:
+            out["harness_error"] = "no overlapping call pair was observed in any concurrent phase"
     if pid == "C04":
         if counters.get("premise_false_version_bumped", 0) > 0:
             out["coverage"] = {"explanation": "premise false: the current tree declares different format version numbers "
